@@ -228,6 +228,15 @@ func (f *Formatter) formatArgument(arg *ast.Argument) {
 	f.writeString(arg.Value.String())
 }
 
+// setVariableType records the type a variable must be declared with. A variable used at several
+// positions has to be accepted by all of them, so the most restrictive (non-null) type is kept
+func setVariableType(res map[string]string, name, typ string) {
+	if prev, ok := res[name]; ok && strings.Count(prev, "!") >= strings.Count(typ, "!") {
+		return
+	}
+	res[name] = typ
+}
+
 func (f *Formatter) walkArgumentList(s ast.SelectionSet) map[string]string {
 	res := make(map[string]string)
 	for _, field := range common.SelectionSetToFields(s, nil) {
@@ -253,24 +262,24 @@ func (f *Formatter) walkArgumentList(s ast.SelectionSet) map[string]string {
 				}
 
 				for k, v := range f.walkChildrenArgumentList(typeDef, a.Value.Children) {
-					res[k] = v
+					setVariableType(res, k, v)
 				}
 				continue
 			}
 
 			if a.Value.Kind == ast.Variable {
-				res[a.Value.Raw] = ad.Type.String()
+				setVariableType(res, a.Value.Raw, ad.Type.String())
 			}
 		}
 		for _, d := range field.Directives {
 			for k, v := range f.walkDirectiveArgumentList(d) {
-				res[k] = v
+				setVariableType(res, k, v)
 			}
 		}
 		if field.SelectionSet != nil {
 			stepRes := f.walkArgumentList(field.SelectionSet)
 			for k, v := range stepRes {
-				res[k] = v
+				setVariableType(res, k, v)
 			}
 		}
 	}
@@ -297,7 +306,7 @@ func (f *Formatter) walkDirectiveArgumentList(d *ast.Directive) map[string]strin
 				argType = ad.Type.String()
 			}
 		}
-		res[a.Value.Raw] = argType
+		setVariableType(res, a.Value.Raw, argType)
 	}
 	return res
 }
@@ -319,7 +328,7 @@ func (f *Formatter) walkChildrenArgumentList(typeDef *ast.Definition, childs ast
 				continue
 			}
 			for k, v := range f.walkChildrenArgumentList(chTypeDef, ch.Value.Children) {
-				res[k] = v
+				setVariableType(res, k, v)
 			}
 			continue
 		}
@@ -327,13 +336,13 @@ func (f *Formatter) walkChildrenArgumentList(typeDef *ast.Definition, childs ast
 		if ch.Value.Kind == ast.Variable {
 			// child name is empty if it's an array, f.e. hello(arrArg: [$someVariable])
 			if ch.Name == "" {
-				res[ch.Value.Raw] = ch.Value.ExpectedType.String()
+				setVariableType(res, ch.Value.Raw, ch.Value.ExpectedType.String())
 			}
 			ad := typeDef.Fields.ForName(ch.Name)
 			if ad == nil {
 				continue
 			}
-			res[ch.Value.Raw] = ad.Type.String()
+			setVariableType(res, ch.Value.Raw, ad.Type.String())
 		}
 	}
 	return res
